@@ -592,15 +592,27 @@ class Run:
             j["files"] = {}
 
     def op_reset(self, op):
-        hd = self._usable_for_doc(op)
-        if hd is None:
+        # reset() = clear() + init(): also through a handle whose job directory vanished behind its back
+        # (removed or moved away through another handle / process), it re-creates the job
+        hd = self.pick(op[1])
+        if hd is None or not self.knows_sp(hd) or cid(hd.sp) in self.emptydirs[hd.proj]:
             return
+        stale = hd.tainted or hd.doc_dead
         exc, _ = self.call(lambda: hd.obj.reset())
         self.expect(exc, None, op)
         j = self._ensure(hd)
         j["doc"] = {}
         j["files"] = {}
         self.mutations += 1
+        if stale:
+            self.probe("reset_through_stale_handle")
+        hd.tainted = False
+        hd.loaded = True
+        if not hd.doc_dead:
+            hd.doc_touched = True
+        for x in self.group_members(hd):
+            if x.loaded:
+                x.tainted = False
 
     def op_remove(self, op):
         hd = self.pick(op[1])
